@@ -49,7 +49,11 @@ def gen_action(r, pre, rule_len, max_ops=14, allow=("next", "insert", "delete", 
                 kinds.append(k)
         elif k == "attr":
             if ctx_ok:
-                prog += [PUSH_BYTE, r.randrange(256), ATTR_SET, r.choice([SLAT_ADVX, SLAT_INSERT, 1, 3, 4, 20, 21])]; kinds.append(k)
+                if r.random() < 0.3:
+                    # attr_add: not idempotent, so a pass that runs twice shows (advance / attach offset / shift, x and y)
+                    prog += [PUSH_BYTE, r.randrange(256), 36, r.choice([SLAT_ADVX, 1, 3, 4, 20, 21])]; kinds.append(k)
+                else:
+                    prog += [PUSH_BYTE, r.randrange(256), ATTR_SET, r.choice([SLAT_ADVX, SLAT_INSERT, 1, 3, 4, 20, 21])]; kinds.append(k)
     if r.random() < 0.5:
         prog += [PUSH_BYTE, r.randrange(-2, 3) & 255, POP_RET]
     else:
